@@ -939,7 +939,7 @@ class Mini:
                 return (1 << bits) - 1 if p.endswith("MAX") else 0
             return (1 << (bits - 1)) - 1 if p.endswith("MAX") else -(1 << (bits - 1))
         for cname, F in self.FB.items():
-            q = p if p.startswith("crate::") and cname == self.crate else None
+            q = p if p.startswith(("crate::", "<crate::")) and cname == self.crate else None
             if q is None and p.split("::", 1)[0] == cname:
                 q = "crate::" + p.split("::", 1)[1]
             if q is None:
